@@ -211,12 +211,18 @@ def evalN (a : Nat → α) : FCon α → Option Bool
   | .or p q => do let x ← evalN a p; let y ← evalN a q; pure (x || y)
   | .not p => do let x ← evalN a p; pure (!x)
 
+/-- `Constraint::not` (since fix 7500ca2), as `Con.mkNot` -/
+def mkNot : FCon α → FCon α
+  | .bin l op r => .bin l op.neg r
+  | .not c => c
+  | c => .not c
+
 /-- rebuild every expression of a constraint tree with the smart constructors -/
 def build : FCon α → Option (FCon α)
   | .bin l op r => do let l ← l.build; let r ← r.build; pure (.bin l op r)
   | .and a b => do let a ← build a; let b ← build b; pure (.and a b)
   | .or a b => do let a ← build a; let b ← build b; pure (.or a b)
-  | .not a => do let a ← build a; pure (.not a)
+  | .not a => do let a ← build a; pure (mkNot a)
 
 def finite : FCon α → Bool
   | .bin l _ r => l.finite && r.finite
